@@ -24,8 +24,17 @@ const KINDS: [&str; 10] = [
     "undef", "none",
 ];
 
+/// characters for long strings: position i ↦ a distinct char (multi-byte every third)
+fn long_char(i: usize) -> char {
+    match i % 3 {
+        0 => char::from_u32(0x61 + (i as u32 / 3)).unwrap(),      // a, b, c …
+        1 => char::from_u32(0x3b1 + (i as u32 / 3)).unwrap(),     // α, β, …
+        _ => char::from_u32(0x4e00 + (i as u32 / 3)).unwrap(),    // CJK
+    }
+}
+
 fn mk_value(kind: &str, len: usize) -> Value {
-    let s: String = CHARS[..len].iter().collect();
+    let s: String = if len <= CHARS.len() { CHARS[..len].iter().collect() } else { (0..len).map(long_char).collect() };
     match kind {
         "strplain" => Value::from(Arc::<str>::from(s.as_str())),
         "strsmall" => Value::from(s),
@@ -37,9 +46,26 @@ fn mk_value(kind: &str, len: usize) -> Value {
         "iterunsized" => Value::make_iterable(move || (0..len as i64).filter(|_| true)),
         "undef" => Value::UNDEFINED,
         "none" => Value::from(()),
+        // the builtin range object (lazy, sized), built by the engine itself
+        "range" => Environment::new()
+            .compile_expression("range(n)")
+            .unwrap()
+            .eval(context! { n => len })
+            .unwrap(),
+        "oneshot" => Value::make_one_shot_iterator(0..len as i64),
+        "deque" => Value::from_object((0..len as i64).map(Value::from).collect::<std::collections::VecDeque<_>>()),
         _ => panic!("bad kind"),
     }
 }
+
+fn char_pos(c: char) -> Option<usize> {
+    if let Some(p) = CHARS.iter().position(|x| *x == c) {
+        return Some(p);
+    }
+    (0..64).find(|i| long_char(*i) == c)
+}
+
+thread_local! { static LONG: std::cell::Cell<bool> = std::cell::Cell::new(false); }
 
 fn canon(v: &Value) -> String {
     if v.is_undefined() {
@@ -53,7 +79,7 @@ fn canon(v: &Value) -> String {
             let s = v.as_str().unwrap();
             let idx: Vec<String> = s
                 .chars()
-                .map(|c| CHARS.iter().position(|x| *x == c).map(|p| p.to_string()).unwrap_or("?".into()))
+                .map(|c| (if LONG.with(|l| l.get()) { (0..64).find(|i| long_char(*i) == c) } else { char_pos(c) }).map(|p| p.to_string()).unwrap_or("?".into()))
                 .collect();
             format!("str:{}", idx.join(","))
         }
@@ -87,7 +113,7 @@ fn canon_elem(kind: &str, v: &Value) -> String {
             let mut it = s.chars();
             let c = it.next();
             if kind.starts_with("str") && c.is_some() && it.next().is_none() {
-                match CHARS.iter().position(|x| Some(*x) == c) {
+                match c.and_then(|c| if LONG.with(|l| l.get()) { (0..64).find(|i| long_char(*i) == c) } else { char_pos(c) }) {
                     Some(p) => format!("elem:{}", p),
                     None => "other:char".into(),
                 }
@@ -147,6 +173,46 @@ fn run_index(env: &Environment, kind: &str, len: usize, i: &str, form: &str) -> 
     }
 }
 
+/// `chain <kind> <len> <suffix>`: evaluates `v<suffix>` where suffix is a sequence of literal
+/// slices/subscripts such as `[1:4][::-1][0]`; the last op decides slice vs element result.
+fn run_chain(env: &Environment, kind: &str, len: usize, suffix: &str) -> String {
+    LONG.with(|l| l.set(len > CHARS.len()));
+    let src = format!("v{}", suffix);
+    let v = mk_value(kind, len);
+    let is_index = suffix.rsplit('[').next().map(|last| !last.contains(':')).unwrap_or(false);
+    let r = guarded(|| {
+        let expr = env.compile_expression(&src)?;
+        let out = expr.eval(context! { v => v })?;
+        Ok::<String, minijinja::Error>(if is_index { canon_elem(if kind.starts_with("str") { "str" } else { kind }, &out) } else { canon(&out) })
+    });
+    LONG.with(|l| l.set(false));
+    match r {
+        Ok(Ok(s)) => s,
+        Ok(Err(e)) => format!("err:{}", error_kind_name(&e)),
+        Err(_) => "panic".into(),
+    }
+}
+
+fn rnd_bound(rng: &mut Rng, len: usize, wide: i64) -> String {
+    match rng.below(10) {
+        0 | 1 => String::new(),
+        2 => i64::MAX.to_string(),
+        3 => i64::MIN.to_string(),
+        _ => (rng.below((2 * (len as i64 + wide) + 1) as u64) as i64 - (len as i64 + wide)).to_string(),
+    }
+}
+
+fn rnd_slice(rng: &mut Rng, len: usize) -> String {
+    let a = rnd_bound(rng, len, 3);
+    let b = rnd_bound(rng, len, 3);
+    let c = match rng.below(8) {
+        0 | 1 | 2 => String::new(),
+        3 => "-1".to_string(),
+        _ => { let k = rng.below(9) as i64 + 1; if rng.chance(1, 2) { (-k).to_string() } else { k.to_string() } }
+    };
+    if c.is_empty() { format!("[{}:{}]", a, b) } else { format!("[{}:{}:{}]", a, b, c) }
+}
+
 fn bounds(range: std::ops::RangeInclusive<i64>) -> Vec<String> {
     let mut v = vec!["_".to_string()];
     v.extend(range.map(|x| x.to_string()));
@@ -193,6 +259,27 @@ fn main() {
                     }
                 }
             }
+            // ---- chain stream: longer sequences, more kinds, slices of slices, subscripts of slices
+            {
+                let mut rng = Rng::new(seed_from_env() ^ 0x0c09);
+                let n = if thorough { 400_000 } else { 60_000 };
+                let kinds = ["strplain", "strsmall", "strsafe", "bytes", "list", "tuple", "itersized",
+                             "iterunsized", "range", "oneshot", "deque"];
+                for _ in 0..n {
+                    let kind = *rng.pick(&kinds);
+                    let len = if rng.chance(1, 3) { rng.below(7) as usize } else { 7 + rng.below(34) as usize };
+                    let mut suffix = rnd_slice(&mut rng, len);
+                    // one-shot iterators can be iterated once: a single op only
+                    if kind != "oneshot" {
+                        if rng.chance(1, 2) { suffix.push_str(&rnd_slice(&mut rng, len)); }
+                        if rng.chance(1, 3) {
+                            suffix.push_str(&format!("[{}]", rng.below(2 * len as u64 + 5) as i64 - len as i64 - 2));
+                        }
+                    }
+                    let r = run_chain(&env, kind, len, &suffix);
+                    writeln!(out, "chain {} {} {}\t{}", kind, len, suffix, r).unwrap();
+                }
+            }
             if !thorough {
                 // literal forms on a sub-box (the parser's negative-literal path)
                 for kind in ["strsmall", "list", "tuple"] {
@@ -214,6 +301,7 @@ fn main() {
             let r = match f[0] {
                 "slice" => run_slice(&env, f[1], f[2].parse().unwrap(), f[3], f[4], f[5], f[6]),
                 "index" => run_index(&env, f[1], f[2].parse().unwrap(), f[3], f[4]),
+                "chain" => run_chain(&env, f[1], f[2].parse().unwrap(), f[3]),
                 _ => "bad-case".into(),
             };
             writeln!(out, "{}\t{}", f.join(" "), r).unwrap();
